@@ -578,6 +578,71 @@ def stepH (cfg : HCfg) (h : Heap) (c : Cmd) : Heap :=
 
 def runH (cfg : HCfg) (h : Heap) (cs : List Cmd) : Heap := cs.foldl (stepH cfg) h
 
+/-! ### below object granularity: the sample buffer of every axis (session 3)
+
+Next to the object store runs a store of SAMPLE BUFFERS: `parts[i]` is the id of the buffer the
+axis object `axes[i]` views, `bufs` maps a buffer id to its content.  The content of a buffer is
+always an affine grid (every in-place operator maps grids to grids), so it is kept as the triple
+(first sample, step, count).  A constructor (`UniformTime.__new__` lays the samples out with
+`np.arange`, `.copy()` copies them) ALLOCATES a new buffer; an in-place operator WRITES through the
+buffer of its target.  `share = true` models a memo of sample grids that hands out the stored array
+itself (a view): a new axis with the (t0, Δ, n) of an earlier one gets that one's buffer. -/
+
+abbrev Grid := Int × Int × Nat
+
+def Axis.grid (a : Axis) : Grid := (a.t0, a.dt, a.n)
+
+structure PHeap where
+  next : Nat
+  parts : List Nat
+  bufs : List (Nat × Grid)
+  memo : List (Grid × Nat)
+  deriving Repr, DecidableEq
+
+def PHeap.read (p : PHeap) (b : Nat) : Grid := ((p.bufs.find? (fun e => e.1 == b)).map (·.2)).getD (0, 0, 0)
+
+def PHeap.empty : PHeap := ⟨0, [], [], []⟩
+
+/-- a new axis object with the described grid `g` -/
+def PHeap.alloc (share : Bool) (p : PHeap) (g : Grid) : PHeap :=
+  match (if share then p.memo.find? (fun e => e.1 == g) else none) with
+  | some (_, b) => { p with parts := p.parts ++ [b] }
+  | none => { next := p.next + 1, parts := p.parts ++ [p.next], bufs := (p.next, g) :: p.bufs,
+              memo := if share then (g, p.next) :: p.memo else p.memo }
+
+/-- `axes[id] <op>= …` (accepted by the object layer): the operator is applied to what the BUFFER holds -/
+def PHeap.inplace (p : PHeap) (a : Axis) (id : Nat) (op : IOp) : PHeap :=
+  match p.parts[id]? with
+  | none => p
+  | some b =>
+    let g := p.read b
+    match applyIOp { a with t0 := g.1, dt := g.2.1, n := g.2.2 } op with
+    | .ok a' => { p with bufs := (b, a'.grid) :: p.bufs }
+    | .error _ => p
+
+/-- one command on both layers (the buffer layer follows what the object layer did) -/
+def stepHP (share : Bool) (hp : Heap × PHeap) (c : Cmd) : Heap × PHeap :=
+  match exec hIntended hp.1 c with
+  | .error _ => hp
+  | .ok (h', _) =>
+    match c with
+    | .inplace id op =>
+      match hp.1.axes[id]? with
+      | some a => (h', hp.2.inplace a id op)
+      | none => (h', hp.2)
+    | _ =>
+      match h'.axes.drop hp.1.axes.length with
+      | [a] => (h', hp.2.alloc share a.grid)
+      | _ => (h', hp.2)
+
+def runHP (share : Bool) (hp : Heap × PHeap) (cs : List Cmd) : Heap × PHeap := cs.foldl (stepHP share) hp
+
+def startHP (a : Axis) : Heap × PHeap := ({ axes := [a], series := [] }, PHeap.empty.alloc false a.grid)
+
+/-- for every axis the smallest index of an axis that views the same buffer -/
+def bufReps (parts : List Nat) : List Nat :=
+  (List.range parts.length).map fun j => (parts.take (j + 1)).idxOf (parts.getD j 0)
+
 /-! ### line protocol -/
 open Proto
 
@@ -739,6 +804,16 @@ def handle (args : List String) : String :=
     | some (some a), some cs =>
       let h : Heap := { axes := [a], series := [] }
       "ok " ++ " ; ".intercalate (showHeap h :: traceH hIntended h cs)
+    | _, _ => "bad-op"
+  | ["heapparts", ax, prog] =>
+    match parseAxis? ax, (if prog = "-" then some [] else (prog.splitOn ";").mapM parseCmd?) with
+    | some (some a), some cs =>
+      let hp := runHP false (startHP a) cs
+      "ok B:" ++ showNatList (bufReps hp.2.parts) ++ " W:" ++
+        showBoolList ((List.range hp.1.axes.length).map fun j =>
+          match hp.1.axes[j]? with
+          | some x => hp.2.read (hp.2.parts.getD j 0) == x.grid
+          | none => false)
     | _, _ => "bad-op"
   | ["arange_len", dur, dt] =>
     match dur.toInt?, dt.toInt? with
